@@ -341,7 +341,7 @@ def cell_strategy(tier):
 def dw_strategy(tier):
     @st.composite
     def s(draw):
-        c = draw(drive.st_dw_case(tier=tier, scales=True))
+        c = draw(drive.st_dw_case(tier=tier, scales=True, bounds_forms=True))
         if draw(st.integers(0, 5)) == 0:
             # start configuration with lmin == lmax (a single full grid): the initial space is the full-grid space
             c["lmin"] = c["lmax"] = draw(st.sampled_from([2, 2, 3]))
@@ -365,14 +365,14 @@ def dw_fixed_cases():
 def dwm_strategy(tier):
     @st.composite
     def s(draw):
-        c = draw(drive.st_dw_case(tier=tier, scales=True))
+        c = draw(drive.st_dw_case(tier=tier, scales=True, bounds_forms=True))
         c["estimator"] = draw(st.sampled_from(["tape", "tape", "library"]))
         return c
     return s()
 
 
 def es_strategy(tier):
-    return drive.st_es_case(tier=tier, boundary_choices=(True,), scales=True)
+    return drive.st_es_case(tier=tier, boundary_choices=(True,), scales=True, bounds_forms=True)
 
 
 def selftest():
